@@ -1,4 +1,5 @@
-(** C16 -- Graph methods preserve [graph_ok] (under the guards where the code needs them). *)
+(** C16 -- Graph methods preserve [graph_ok] (no guard is needed any more: the code checks
+    node identity and label clashes before it mutates). *)
 From Coq Require Import List Arith Bool Lia.
 Import ListNotations.
 Require Import Fggs.Model.GraphAPI Fggs.Proofs.GraphAPI_assoc Fggs.Proofs.GraphAPI_wf.
@@ -53,37 +54,83 @@ Proof.
   intros _. apply aget_aset_same.
 Qed.
 
-Lemma add_missing_grows : forall ns g, grows g (g_add_missing g ns).
+Lemma add_all_grows : forall l g, grows g (g_add_all g l).
 Proof.
-  unfold g_add_missing. induction ns as [|n ns IH]; intros g; cbn; [apply grows_refl|].
-  eapply grows_trans; [|apply IH].
-  destruct (amem ident_eq_dec (g_nodes g) (n_id n)); [apply grows_refl | apply add_node_grows].
+  unfold g_add_all. induction l as [|n l IH]; intros g; cbn; [apply grows_refl|].
+  eapply grows_trans; [apply add_node_grows | apply IH].
 Qed.
 
-Lemma add_missing_has : forall ns g n,
-    nodes_consistent (g_nodes g) ns = true -> In n ns -> has_node (g_add_missing g ns) n.
+(** adding nodes whose ids are new and distinct: the node dict afterwards is the old one
+    extended by them *)
+Lemma add_all_spec : forall (l : list (ident * node)) g,
+    keyed n_id l -> (forall k v, aget ident_eq_dec l k = Some v -> aget ident_eq_dec (g_nodes g) k = None) ->
+    forall k, aget ident_eq_dec (g_nodes (g_add_all g (map snd l))) k = lookup2 (g_nodes g) l k.
 Proof.
-  induction ns as [|n0 ns IH]; intros g n C H; [destruct H|].
-  cbn in C. change (g_add_missing g (n0 :: ns))
-    with (g_add_missing (if amem ident_eq_dec (g_nodes g) (n_id n0) then g else fst (g_add_node g n0)) ns).
-  unfold amem. destruct (aget ident_eq_dec (g_nodes g) (n_id n0)) as [n'|] eqn:G.
-  - apply andb_true_iff in C. destruct C as [C1 C2].
-    destruct H as [<-|H]; [|apply IH; assumption].
-    unfold node_eqb in C1. destruct (node_eq_dec n' n0); [subst|discriminate].
-    apply (gr_nodes _ _ (add_missing_grows ns g)). exact G.
-  - assert (E : g_nodes (fst (g_add_node g n0)) = aset ident_eq_dec (g_nodes g) (n_id n0) n0).
-    { unfold g_add_node, amem. rewrite G. reflexivity. }
-    destruct H as [<-|H].
-    + apply (gr_nodes _ _ (add_missing_grows ns _)). rewrite E. apply aget_aset_same.
-    + apply IH; [rewrite E; assumption | assumption].
+  induction l as [|[k0 v0] l IH]; intros g [ND KV] FR k.
+  - cbn. unfold lookup2. cbn. destruct (aget ident_eq_dec (g_nodes g) k); reflexivity.
+  - cbn in ND. inversion ND as [|? ? NI ND']; subst.
+    assert (K0 : k0 = n_id v0) by (apply KV; left; reflexivity).
+    assert (F0 : aget ident_eq_dec (g_nodes g) k0 = None).
+    { apply (FR k0 v0). cbn. destruct (ident_eq_dec k0 k0); congruence. }
+    assert (E1 : g_nodes (fst (g_add_node g v0)) = aset ident_eq_dec (g_nodes g) k0 v0).
+    { unfold g_add_node, amem. rewrite <- K0, F0. reflexivity. }
+    change (g_add_all g (map snd ((k0, v0) :: l))) with (g_add_all (fst (g_add_node g v0)) (map snd l)).
+    rewrite IH.
+    + rewrite E1. unfold lookup2. rewrite aget_aset. cbn [aget].
+      destruct (ident_eq_dec k0 k) as [<-|N]; [rewrite F0; reflexivity | reflexivity].
+    + split; [assumption | intros; apply KV; right; assumption].
+    + intros k' v' H. rewrite E1. rewrite aget_aset_other.
+      * apply (FR k' v'). cbn. destruct (ident_eq_dec k0 k') as [<-|N]; [|assumption].
+        exfalso. apply NI. apply aget_In in H. change k0 with (fst (k0, v')). apply in_map. assumption.
+      * intro E. subst k'. apply NI. apply aget_In in H. change k0 with (fst (k0, v')). apply in_map. assumption.
 Qed.
 
-(** all nodes present: nothing is added *)
-Lemma add_missing_id : forall ns g,
-    (forall n, In n ns -> amem ident_eq_dec (g_nodes g) (n_id n) = true) -> g_add_missing g ns = g.
+Lemma check_new_gen : forall ns m new add,
+    check_new m new ns = Some add ->
+    keyed n_id new -> (forall k v, aget ident_eq_dec new k = Some v -> aget ident_eq_dec m k = None) ->
+    exists new', add = map snd new' /\ keyed n_id new' /\
+                 (forall k v, aget ident_eq_dec new' k = Some v -> aget ident_eq_dec m k = None) /\
+                 (forall k v, lookup2 m new k = Some v -> lookup2 m new' k = Some v) /\
+                 forall n, In n ns -> lookup2 m new' (n_id n) = Some n.
 Proof.
-  unfold g_add_missing. induction ns as [|n ns IH]; intros g H; cbn; [reflexivity|].
-  rewrite (H n) by (left; reflexivity). apply IH. intros; apply H; right; assumption.
+  induction ns as [|n ns IH]; intros m new add E K FR; cbn in E.
+  - inversion E; subst. exists new. repeat split; auto; try apply K. intros ? [].
+  - destruct (lookup2 m new (n_id n)) as [old|] eqn:L.
+    + destruct (node_eq_dec old n) as [->|]; [|discriminate].
+      destruct (IH _ _ _ E K FR) as (new' & A & B & C & D & F).
+      exists new'. repeat split; auto; try apply B.
+      intros n0 [<-|H]; [apply D; assumption | apply F; assumption].
+    + assert (M0 : aget ident_eq_dec m (n_id n) = None).
+      { unfold lookup2 in L. destruct (aget ident_eq_dec m (n_id n)); [discriminate | reflexivity]. }
+      destruct (IH _ _ _ E) as (new' & A & B & C & D & F).
+      * apply keyed_aset. assumption.
+      * intros k v H. rewrite aget_aset in H. destruct (ident_eq_dec (n_id n) k) as [<-|N]; [assumption | eapply FR; eauto].
+      * exists new'. repeat split; auto; try apply B.
+        -- intros k v H. apply D. unfold lookup2 in *.
+           destruct (aget ident_eq_dec m k) eqn:Mk; [assumption|].
+           rewrite aget_aset. destruct (ident_eq_dec (n_id n) k) as [<-|N]; [|assumption].
+           rewrite Mk in L. congruence.
+        -- intros n0 [<-|H]; [|apply F; assumption].
+           apply D. unfold lookup2. rewrite M0. apply aget_aset_same.
+Qed.
+
+(** what [_check_new_nodes] + the [add_node] loop achieve *)
+Lemma check_new_spec : forall g ns add,
+    check_new (g_nodes g) [] ns = Some add ->
+    grows g (g_add_all g add) /\ forall n, In n ns -> has_node (g_add_all g add) n.
+Proof.
+  intros g ns add E. split; [apply add_all_grows|].
+  destruct (check_new_gen _ _ _ _ E (keyed_nil n_id)) as (new' & -> & B & C & _ & F); [intros ? ? H; discriminate|].
+  intros n H. unfold has_node. rewrite (add_all_spec new' g B C). apply F. assumption.
+Qed.
+
+(** all nodes present (as themselves): nothing to add *)
+Lemma check_new_all_present : forall ns m,
+    (forall n, In n ns -> aget ident_eq_dec m (n_id n) = Some n) -> check_new m [] ns = Some [].
+Proof.
+  induction ns as [|n ns IH]; intros m H; cbn; [reflexivity|].
+  unfold lookup2. rewrite (H n) by (left; reflexivity).
+  destruct (node_eq_dec n n); [|congruence]. apply IH. intros; apply H; right; assumption.
 Qed.
 
 (** * add_node / new_node *)
@@ -91,12 +138,22 @@ Lemma g_add_node_ok : forall g n, graph_ok g -> graph_ok (fst (g_add_node g n)).
 Proof. intros. eapply grows_ok; [eassumption | apply add_node_grows]. Qed.
 
 (** * ext setter *)
-Lemma g_set_ext_ok : forall g ns,
-    graph_ok g -> nodes_consistent (g_nodes g) ns = true -> graph_ok (fst (g_set_ext g ns)).
+Lemma g_set_ext_ok : forall g ns, graph_ok g -> graph_ok (fst (g_set_ext g ns)).
 Proof.
-  intros g ns OK C. cbn.
-  pose proof (grows_ok _ _ OK (add_missing_grows ns g)) as [N E T A X R Ty].
-  split; auto. cbn. intros n H. apply (add_missing_has ns g n C H).
+  intros g ns OK. unfold g_set_ext.
+  destruct (check_new (g_nodes g) [] ns) as [add|] eqn:E; cbn; [|assumption].
+  destruct (check_new_spec _ _ _ E) as [GR HAS].
+  pose proof (grows_ok _ _ OK GR) as [N Ed T A X R Ty].
+  split; auto.
+Qed.
+
+Lemma g_set_ext_shape : forall g ns,
+    g_edges (fst (g_set_ext g ns)) = g_edges g /\
+    (snd (g_set_ext g ns) = ROk /\ g_ext (fst (g_set_ext g ns)) = ns \/
+     snd (g_set_ext g ns) = RErr ValueErr /\ fst (g_set_ext g ns) = g).
+Proof.
+  intros g ns. unfold g_set_ext. destruct (check_new (g_nodes g) [] ns) as [add|]; cbn; [|auto].
+  split; [apply (gr_edges _ _ (add_all_grows add g)) | auto].
 Qed.
 
 (** * remove_edge *)
@@ -118,34 +175,16 @@ Proof.
   destruct (negb (amem ident_eq_dec (g_edges g) (e_id e))); cbn; [auto|]. apply In_adel.
 Qed.
 
-(** * remove_node; the guard [remove_ok] is about the node actually stored under the id *)
-Definition remove_guard (g : graph) (n : node) : bool :=
-  match aget ident_eq_dec (g_nodes g) (n_id n) with
-  | Some n' => node_eqb n' n ||
-               (negb (existsb (fun ke => inb node_eq_dec n' (e_nodes (snd ke))) (g_edges g))
-                && negb (inb node_eq_dec n' (g_ext g)))
-  | None => true
-  end.
-
-Lemma g_remove_node_ok : forall g n,
-    graph_ok g -> remove_guard g n = true -> graph_ok (fst (g_remove_node g n)).
+(** * remove_node *)
+Lemma g_remove_node_ok : forall g n, graph_ok g -> graph_ok (fst (g_remove_node g n)).
 Proof.
-  intros g n OK G. unfold g_remove_node.
-  destruct (negb (amem ident_eq_dec (g_nodes g) (n_id n))) eqn:M; cbn; [assumption|].
-  destruct (existsb (fun ke => inb node_eq_dec n (e_nodes (snd ke))) (g_edges g)) eqn:EA; cbn; [assumption|].
-  destruct (inb node_eq_dec n (g_ext g)) eqn:EX; cbn; [assumption|].
-  apply negb_false_iff, amem_true in M. destruct M as [n' Hn'].
-  unfold remove_guard in G. rewrite Hn' in G.
-  (* the node stored under the id is neither attached nor external *)
-  assert (FREE : existsb (fun ke => inb node_eq_dec n' (e_nodes (snd ke))) (g_edges g) = false
-                 /\ inb node_eq_dec n' (g_ext g) = false).
-  { apply orb_true_iff in G. destruct G as [G|G].
-    - unfold node_eqb in G. destruct (node_eq_dec n' n); [subst; auto | discriminate].
-    - apply andb_true_iff in G. destruct G as [G1 G2].
-      apply negb_true_iff in G1. apply negb_true_iff in G2. auto. }
-  destruct FREE as [F1 F2].
+  intros g n OK. unfold g_remove_node.
+  destruct (aget ident_eq_dec (g_nodes g) (n_id n)) as [n'|] eqn:Hn'; cbn; [|assumption].
+  destruct (node_eq_dec n' n) as [->|]; cbn; [|assumption].
+  destruct (existsb (fun ke => inb node_eq_dec n (e_nodes (snd ke))) (g_edges g)) eqn:F1; cbn; [assumption|].
+  destruct (inb node_eq_dec n (g_ext g)) eqn:F2; cbn; [assumption|].
   destruct OK as [N E T A X R Ty].
-  assert (KEEP : forall m, has_node g m -> m <> n' ->
+  assert (KEEP : forall m, has_node g m -> m <> n ->
                            aget ident_eq_dec (adel ident_eq_dec (g_nodes g) (n_id n)) (n_id m) = Some m).
   { intros m Hm Nm. rewrite aget_adel_other; [exact Hm|].
     intro Eid. unfold has_node in Hm. rewrite Eid in Hm. congruence. }
@@ -153,7 +192,7 @@ Proof.
   - apply keyed_adel. assumption.
   - intros k e m H1 H2. unfold has_node. cbn. apply KEEP; [eapply A; eauto|].
     intro Em. subst m.
-    assert (Y : existsb (fun ke => inb node_eq_dec n' (e_nodes (snd ke))) (g_edges g) = true).
+    assert (Y : existsb (fun ke => inb node_eq_dec n (e_nodes (snd ke))) (g_edges g) = true).
     { apply existsb_exists. exists (k, e). split; [assumption|]. cbn. apply inb_true. assumption. }
     congruence.
   - intros m H. unfold has_node. cbn. apply KEEP; [apply X; assumption|].
@@ -164,7 +203,8 @@ Lemma g_remove_node_same : forall g n,
     g_edges (fst (g_remove_node g n)) = g_edges g /\ g_ext (fst (g_remove_node g n)) = g_ext g.
 Proof.
   intros. unfold g_remove_node.
-  destruct (negb (amem ident_eq_dec (g_nodes g) (n_id n))); cbn; [auto|].
+  destruct (aget ident_eq_dec (g_nodes g) (n_id n)); cbn; [|auto].
+  destruct (node_eq_dec n0 n); cbn; [|auto].
   destruct (existsb _ (g_edges g)); cbn; [auto|].
   destruct (inb node_eq_dec n (g_ext g)); cbn; auto.
 Qed.
@@ -173,86 +213,75 @@ Qed.
 Lemma set_el_id : forall t, set_el t (t_el t) = t.
 Proof. destruct t; reflexivity. Qed.
 
-(** what add_edge returns: either nothing happened, or the missing nodes were added and the
-    label clashed (F12), or the edge was stored *)
-Lemma g_add_edge_cases : forall g e,
-    tab_ok (g_tab g) ->
-    let gm := g_add_missing g (e_nodes e) in
-    (g_add_edge g e = (g, RErr ValueErr) /\ amem ident_eq_dec (g_edges g) (e_id e) = true)
-    \/ (g_add_edge g e = (gm, RErr ValueErr) /\ amem ident_eq_dec (g_edges g) (e_id e) = false
-        /\ label_conflict (g_tab g) (e_label e) = true)
-    \/ (exists t', g_add_edge g e = (gset_edges (gset_tab gm t') (aset ident_eq_dec (g_edges g) (e_id e) e), ROk)
-                   /\ amem ident_eq_dec (g_edges g) (e_id e) = false
-                   /\ label_conflict (g_tab g) (e_label e) = false
-                   /\ t_add_edge_label (g_tab gm) (e_label e) = (t', ROk)).
+(** without a clash the label is registered successfully *)
+Lemma add_edge_label_no_conflict : forall t l,
+    label_conflict t l = false -> exists t', t_add_edge_label t l = (t', ROk).
 Proof.
-  intros g e TO gm. unfold g_add_edge.
-  destruct (amem ident_eq_dec (g_edges g) (e_id e)) eqn:M; [left; auto|right].
-  fold gm.
-  pose proof (add_missing_grows (e_nodes e) g) as GR. fold gm in GR.
-  destruct (t_add_edge_label (g_tab gm) (e_label e)) as [t' r] eqn:E.
-  pose proof (add_edge_label_spec _ _ _ _ E (gr_tab _ _ GR TO)) as (A & B & C & D & F & _).
-  unfold t_add_edge_label in E.
-  destruct (aget Nat.eq_dec (t_el (g_tab gm)) (el_name (e_label e))) as [l'|] eqn:G.
-  - destruct (elabel_eq_dec l' (e_label e)) as [->|N].
-    + inversion E; subst. right. eexists. split; [|split; [reflexivity|split]].
-      * f_equal. cbn. rewrite (gr_edges _ _ GR).
-        rewrite (aset_id Nat.eq_dec _ _ _ (aget_aset_same Nat.eq_dec (t_el (g_tab gm)) (el_name (e_label e)) (e_label e))).
-        reflexivity.
-      * unfold label_conflict, elabel_eqb. rewrite <- (gr_el _ _ GR), G.
-        destruct (elabel_eq_dec (e_label e) (e_label e)); [reflexivity | congruence].
-      * reflexivity.
-    + inversion E; subst. left. repeat split; auto.
-      unfold label_conflict, elabel_eqb. rewrite <- (gr_el _ _ GR), G.
-      destruct (elabel_eq_dec l' (e_label e)); [congruence | reflexivity].
-  - inversion E; subst. right. eexists. split; [|split; [reflexivity|split]].
-    + f_equal. cbn. rewrite (gr_edges _ _ GR).
-      rewrite (aset_id Nat.eq_dec _ _ _ (aget_aset_same Nat.eq_dec (t_el (g_tab gm)) (el_name (e_label e)) (e_label e))).
-      reflexivity.
-    + unfold label_conflict. rewrite <- (gr_el _ _ GR), G. reflexivity.
-    + reflexivity.
+  intros t l H. unfold t_add_edge_label, label_conflict in *.
+  destruct (aget Nat.eq_dec (t_el t) (el_name l)) as [l'|]; [|eauto].
+  destruct (elabel_eq_dec l' l); [eauto | discriminate].
+Qed.
+
+(** what add_edge returns: either it raised and nothing happened, or the missing nodes were
+    added and the edge was stored *)
+Lemma g_add_edge_cases : forall g e,
+    g_add_edge g e = (g, RErr ValueErr)
+    \/ (exists add t',
+           let gm := g_add_all g add in
+           check_new (g_nodes g) [] (e_nodes e) = Some add
+           /\ g_add_edge g e = (gset_edges (gset_tab gm t') (aset ident_eq_dec (g_edges g) (e_id e) e), ROk)
+           /\ amem ident_eq_dec (g_edges g) (e_id e) = false
+           /\ t_add_edge_label (g_tab gm) (e_label e) = (t', ROk)).
+Proof.
+  intros g e. unfold g_add_edge.
+  destruct (amem ident_eq_dec (g_edges g) (e_id e)) eqn:M; [left; reflexivity|].
+  destruct (label_conflict (g_tab g) (e_label e)) eqn:LC; [left; reflexivity|].
+  destruct (check_new (g_nodes g) [] (e_nodes e)) as [add|] eqn:CN; [|left; reflexivity].
+  right. exists add.
+  pose proof (add_all_grows add g) as GR.
+  assert (LC' : label_conflict (g_tab (g_add_all g add)) (e_label e) = false).
+  { unfold label_conflict in *. rewrite (gr_el _ _ GR). exact LC. }
+  destruct (add_edge_label_no_conflict _ _ LC') as [t' E]. exists t'. cbn zeta.
+  rewrite E. split; [reflexivity|]. split; [|split; [reflexivity | reflexivity]].
+  f_equal. cbn. rewrite (gr_edges _ _ GR).
+  assert (R : aget Nat.eq_dec (t_el t') (el_name (e_label e)) = Some (e_label e)).
+  { unfold t_add_edge_label in E. destruct (aget Nat.eq_dec (t_el (g_tab (g_add_all g add))) (el_name (e_label e))) as [l'|].
+    - destruct (elabel_eq_dec l' (e_label e)); inversion E; subst. cbn. apply aget_aset_same.
+    - inversion E; subst. cbn. apply aget_aset_same. }
+  rewrite (aset_id Nat.eq_dec _ _ _ R). rewrite set_el_id. reflexivity.
 Qed.
 
 Lemma g_add_edge_ok : forall g e,
-    graph_ok g -> el_ty (e_label e) = map n_label (e_nodes e) ->
-    (snd (g_add_edge g e) = ROk -> nodes_consistent (g_nodes g) (e_nodes e) = true) ->
-    graph_ok (fst (g_add_edge g e)).
+    graph_ok g -> el_ty (e_label e) = map n_label (e_nodes e) -> graph_ok (fst (g_add_edge g e)).
 Proof.
-  intros g e OK TY C.
-  pose proof (add_missing_grows (e_nodes e) g) as GR.
+  intros g e OK TY.
+  destruct (g_add_edge_cases g e) as [E|(add & t' & CN & E & M & L)]; rewrite E; cbn [fst]; [assumption|].
+  destruct (check_new_spec _ _ _ CN) as [GR HAS].
   pose proof (grows_ok _ _ OK GR) as OKm.
-  destruct (g_add_edge_cases g e (gk_tab _ OK)) as [[E _]|[[E _]|(t' & E & M & _ & L)]]; rewrite E in *; cbn [fst snd] in *.
-  - assumption.
-  - assumption.
-  - specialize (C eq_refl).
-    pose proof (add_edge_label_spec _ _ _ _ L (gk_tab _ OKm)) as (A & B & R & _).
-    specialize (R eq_refl).
-    destruct OKm as [N Ed T At X Rg Ty]. rewrite (gr_edges _ _ GR) in *.
-    split; cbn; auto.
-    + apply keyed_aset. assumption.
-    + intros k e0 n H1 H2. apply In_aset in H1. destruct H1 as [H1|H1].
-      * inversion H1; subst. apply add_missing_has; assumption.
-      * eapply At; eauto.
-    + intros k e0 H1. apply In_aset in H1. destruct H1 as [H1|H1].
-      * inversion H1; subst. exact R.
-      * apply B. eapply Rg; eauto.
-    + intros k e0 H1. apply In_aset in H1. destruct H1 as [H1|H1].
-      * inversion H1; subst. exact TY.
-      * eapply Ty; eauto.
+  pose proof (add_edge_label_spec _ _ _ _ L (gk_tab _ OKm)) as (A & B & R & _).
+  specialize (R eq_refl).
+  destruct OKm as [N Ed T At X Rg Ty]. rewrite (gr_edges _ _ GR) in *.
+  split; cbn; auto.
+  - apply keyed_aset. assumption.
+  - intros k e0 n H1 H2. apply In_aset in H1. destruct H1 as [H1|H1].
+    + inversion H1; subst. apply HAS. assumption.
+    + eapply At; eauto.
+  - intros k e0 H1. apply In_aset in H1. destruct H1 as [H1|H1].
+    + inversion H1; subst. exact R.
+    + apply B. eapply Rg; eauto.
+  - intros k e0 H1. apply In_aset in H1. destruct H1 as [H1|H1].
+    + inversion H1; subst. exact TY.
+    + eapply Ty; eauto.
 Qed.
 
 (** type and edge labels after add_edge *)
 Lemma g_add_edge_shape : forall g e,
-    tab_ok (g_tab g) ->
     g_ext (fst (g_add_edge g e)) = g_ext g /\
     forall k e0, In (k, e0) (g_edges (fst (g_add_edge g e))) ->
                  In (k, e0) (g_edges g) \/ (e0 = e /\ snd (g_add_edge g e) = ROk).
 Proof.
-  intros g e TO.
-  pose proof (add_missing_grows (e_nodes e) g) as GR.
-  destruct (g_add_edge_cases g e TO) as [[E _]|[[E _]|(t' & E & _)]]; rewrite E; cbn [fst snd].
-  - auto.
-  - rewrite (gr_ext _ _ GR), (gr_edges _ _ GR). auto.
-  - cbn. rewrite (gr_ext _ _ GR). split; [reflexivity|].
-    intros k e0 H. apply In_aset in H. destruct H as [H|H]; [inversion H; auto | auto].
+  intros g e.
+  destruct (g_add_edge_cases g e) as [E|(add & t' & CN & E & _)]; rewrite E; cbn [fst snd]; [auto|].
+  cbn. rewrite (gr_ext _ _ (add_all_grows add g)). split; [reflexivity|].
+  intros k e0 H. apply In_aset in H. destruct H as [H|H]; [inversion H; auto | auto].
 Qed.
